@@ -26,3 +26,5 @@ def check(repo, rep, tier):
     from .. import rules_compile as rc
     from .. import rules_clause as rcl
     rep.run(rcl.rule_calls_late_bound, rc.CompilerModel(repo), rep, 'C20.U8')
+    # clear() treats compiled and Python predicates alike: afterwards neither kind is left
+    rep.run(rx.rule_clear_restores_context, em, rep, 'C20.U9')
